@@ -29,6 +29,10 @@ def _spec_and_real(out, pid, tier, seed, cfgs, variants, name):
         for v in variants(cfg):
             if v.pop("sigint", False):
                 obs, evs = E.run_real_with_sigint(cfg, f"{name}_sigint"), None
+            elif v.pop("child", False):
+                # interrupts raised inside every worker by the callbacks (no signal to the parent); run in a
+                # child process under a time limit because a mishandled interrupt can block the parent for ever
+                obs, evs = E.run_real_with_sigint(cfg, f"{name}_child", timeout=40, send_signal=False), None
             elif v.pop("record", False):
                 obs, evs = E.record_real(cfg, f"{name}_rec", **v)
             else:
@@ -264,7 +268,9 @@ def run_c15(tier, seed):
 
     def variants(cfg):
         if cfg["intr"]["chain"] == 0 and cfg["nproc"]:
-            return [{"sigint": True}]       # a real SIGINT to the whole process group
+            # a real SIGINT to the whole process group; and the same interrupt raised by the callbacks in
+            # every worker only
+            return [{"sigint": True}, {"child": True}]
         vs = [{"record": True}]
         if cfg["nproc"] == 0 and cfg["nchain"] == 2:
             vs += [{"storage": "memmap-dir"}]
